@@ -110,13 +110,14 @@ BLbRev(r, pred) == LbRevI(data, DefaultItem(alg), pred, 0, r, 0, 0, n - 1, {})
 
 (* ---- lockstep actions ---------------------------------------------------------- *)
 \* Segtree::new / from_slice (new_raw filled with data[0]) / from_iter (new_raw filled with T::default())
-DataNew(al, k, c) == RebuildEmpty(al, NewRaw(k, LeafItem(al, c)), 0, 0, k - 1)
-DataFromSeq(al, cs, how) ==
-    Rebuild(al, NewRaw(Len(cs), IF how = "slice" THEN LeafItem(al, cs[1]) ELSE DefaultItem(al)),
-            [j \in 1 .. Len(cs) |-> LeafItem(al, cs[j])], 0, 0, Len(cs) - 1)
-New(al, k, c) == ANew(al, k, c) /\ data' = DataNew(al, k, c)
-FromSeq(al, cs, how) == AFromSeq(al, cs) /\ data' = DataFromSeq(al, cs, how)
-Set(i, c)       == ASet(i, c) /\ data' = SetI(data, i, LeafItem(alg, c), 0, 0, n - 1)
+\* jk = 1: the items handed in carry a junk pending-modifier field (see SegAlg.LeafItemJ)
+DataNew(al, k, c, jk) == RebuildEmpty(al, NewRaw(k, LeafItemJ(al, c, jk)), 0, 0, k - 1)
+DataFromSeq(al, cs, how, jk) ==
+    Rebuild(al, NewRaw(Len(cs), IF how = "slice" THEN LeafItemJ(al, cs[1], jk) ELSE DefaultItem(al)),
+            [j \in 1 .. Len(cs) |-> LeafItemJ(al, cs[j], jk)], 0, 0, Len(cs) - 1)
+New(al, k, c, jk) == ANew(al, k, c) /\ data' = DataNew(al, k, c, jk)
+FromSeq(al, cs, how, jk) == AFromSeq(al, cs) /\ data' = DataFromSeq(al, cs, how, jk)
+Set(i, c, jk)   == ASet(i, c) /\ data' = SetI(data, i, LeafItemJ(alg, c, jk), 0, 0, n - 1)
 Modify(l, r, m) == AModify(l, r, m) /\ data' = ModI(data, l, r, m, 0, 0, n - 1)
 Ask(l, r)       == AQuery /\ data' = BAsk(l, r)[1]
 Lb(l, pred)     == AQuery /\ data' = BLb(l, pred).d
